@@ -1261,6 +1261,10 @@ macro_rules! impl_binop_assign {
                 {
                     self.data[i].$method(0);
                 }
+                // The right hand side may be longer than self: drop the bits beyond the length.
+                if let Some(l) = self.data.get_mut(self.length / Bvd::BIT_UNIT) {
+                    *l &= u64::mask(self.length % Bvd::BIT_UNIT);
+                }
             }
         }
 
